@@ -6,16 +6,17 @@ import re
 from harness import core, docgen, inputs, trees, xdoc
 
 GEN = ['gen_tables', 'gen_regex', 'gen_config', 'gen_escapes']
-THEOREMS = ['C04_quote_wraps', 'C04_quote_wraps_document', 'C04_configs_try_quote_first', 'C04_full_statement_refuted', 'C04_bounded_list']
+THEOREMS = ['C04_quote_wraps', 'C04_quote_wraps_document', 'C04_configs_try_quote_first', 'C04_full_statement_refuted', 'C04_list_wraps', 'C04_list_law_hypotheses', 'C04_bounded_list']
 TRUSTED = ['the parser model (tied by X-doc on the texts and on their embeddings)',
-           'Proofs/ReFirst.v: the first-character analysis of the regex engine (proved sound against Re/ReMatch.v) evaluated by vm_compute '
-           'on the patterns regenerated from /repo',
+           'Proofs/ReFirst.v (first-character analysis) and Proofs/ReExact.v (greedy repetition over a maximal run) - both proved against Re/ReMatch.v - '
+           'evaluated on the patterns regenerated from /repo',
            'vm_compute for the bounded sweeps']
 ASSUMPTIONS = ['quote law: proved for every list of tab-free lines and every fuel, against the parse of the content WITH SETEXT HEADINGS OFF '
                '(what Quote.read does); the full statement (content = the plain parse) is refuted in the model by the witness "Foo\\n---" '
                '(known finding kf_setext_in_quote)',
-               'PARTIAL list law: kernel-checked for all documents over a 9-symbol alphabet up to the stated length and markers -, 1. with padding 1-4; '
-               'beyond that the law is decided on the implementation by the oracle, with the model tied to it by X-doc on the same embeddings',
+               'list law: proved for every marker (+ - * N. N) with 1-9 digits), padding 1-4, every structured tab-free text (blank lines empty, last line not '
+               'blank), every fuel and configuration, minus the thematic-break coincidences - at the level of the block tokenizer (C04_list_wraps); the three '
+               'list patterns enter by their exact regenerated shape; the bounded kernel sweep through the inline phase and the oracle on the implementation remain',
                'marker ">" (no space) is applied only to texts none of whose lines starts with a space: the specification makes that space part of the marker']
 
 QUOTE_MARKERS = ['> ', '>']
